@@ -136,4 +136,35 @@ theorem triInsideGuard_of_bit (t : Tri) (style : TriStyle) (hal : style.strokeAl
     (h : GuardBits.triOutlineGuard t style = true) : TriInsideGuard t style.strokeWidth :=
   triInsideGuard_of_outline t style hal ((triOutlineGuard_bit_iff t style).mp h)
 
+/-- The driver's sixth bit of a `thick.triangle` op (`bit 5` in the evidence) is `TriStrokeColumnsGuard`,
+the guard of `triangle_stroke_in_bounding_box_of_columns_partial`. -/
+theorem triStrokeColumnsGuard_bit_iff (t : Tri) (style : TriStyle) :
+    GuardBits.triStrokeColumnsGuard t style = true ↔ TriStrokeColumnsGuard t style := by
+  unfold GuardBits.triStrokeColumnsGuard TriStrokeColumnsGuard
+  rw [guardBits_closedSegments3]
+  generalize closedSegments3 t.sortedClockwise style.strokeWidth style.strokeAlignment.toOffset = o
+  rcases o with _ | (_ | ⟨a, _ | ⟨b, _ | ⟨c, _ | ⟨d, r⟩⟩⟩⟩)
+  · simp
+  · simp
+  · simp
+  · simp
+  · simp only [guardBits_adjOK, Bool.and_eq_true, decide_eq_true_eq, Bool.or_eq_true,
+      Bool.not_eq_true']
+    constructor
+    · rintro ⟨⟨⟨⟨h0, h1⟩, h2⟩, h3⟩, h4⟩
+      refine ⟨h0, h1, h2, h3, ?_⟩
+      intro hf
+      rcases h4 with h4 | h4
+      · rw [h4] at hf; cases hf
+      · obtain ⟨⟨⟨⟨⟨a1, a2⟩, b1⟩, b2⟩, c1⟩, c2⟩ := h4
+        exact ⟨⟨a1, a2⟩, ⟨b1, b2⟩, ⟨c1, c2⟩⟩
+    · rintro ⟨h0, h1, h2, h3, h4⟩
+      refine ⟨⟨⟨⟨h0, h1⟩, h2⟩, h3⟩, ?_⟩
+      cases hfc : style.fillColor.isSome with
+      | false => exact Or.inl rfl
+      | true =>
+        obtain ⟨⟨a1, a2⟩, ⟨b1, b2⟩, ⟨c1, c2⟩⟩ := h4 hfc
+        exact Or.inr ⟨⟨⟨⟨⟨a1, a2⟩, b1⟩, b2⟩, c1⟩, c2⟩
+  · simp
+
 end EG.C02.GuardBitsSpec
